@@ -55,7 +55,7 @@ func subsequence(sizes []int, got [][]byte) (string, int) {
 	return "", 0
 }
 
-const ruleC16 = "rapid-drawn loss chance from {0,1,5,50,95,99,100,101,1000,-1,-50} and uniform 0..100, stream of 0..2000 tagged chunks (sizes 4..1500) pushed through NewLossFilter in front of a recording sink NIC (in-package shim); 1 in 10 cases is a statistical case with 40000 chunks; oracle: chance 0 -> output == input, chance >= 100 -> nothing, always an in-order duplicate-free byte-identical subsequence (the arriving chunk object itself is what is forwarded), 0<chance<100 on 40000 chunks -> |dropped - N*p| <= 6*sqrt(N*p*(1-p)); non-trivial = stream of >= 100 chunks with mixed sizes; distinct by hash of chance + sizes"
+const ruleC16 = "rapid-drawn loss chance from {0,1,5,50,95,99,100,101,1000,-1,-50} and uniform 0..100, stream of 0..2000 tagged chunks (sizes 4..1500) (UDP chunks, in a quarter of the cases TCP segments with drawn control bits) pushed through NewLossFilter in front of a recording sink NIC (in-package shim); 1 in 10 cases is a statistical case with 40000 chunks; oracle: chance 0 -> output == input, chance >= 100 -> nothing, always an in-order duplicate-free byte-identical subsequence whose chunks show the same String(), Tag(), Network() and addresses as on arrival, 0<chance<100 on 40000 chunks -> |dropped - N*p| <= 6*sqrt(N*p*(1-p)); non-trivial = stream of >= 100 chunks with mixed sizes; distinct by hash of chance + sizes"
 
 func TestC16Loss(t *testing.T) {
 	r := ev.New("C16", "in-package", ruleC16)
@@ -87,6 +87,15 @@ func TestC16Loss(t *testing.T) {
 		c.Set("chance", chance)
 		c.Set("n", n)
 		c.Op("base=%d spread=%d", base, spread)
+		// a quarter of the streams are TCP segments with drawn control bits: what a chunk
+		// shows through its exported methods must survive the filter as well
+		tcp := rapid.IntRange(0, 3).Draw(t, "tcp") == 0
+		if tcp {
+			c.Label("chunks/tcp")
+		}
+		tcpSrc := &net.TCPAddr{IP: srcAddr.IP, Port: srcAddr.Port}
+		tcpDst := &net.TCPAddr{IP: dstAddr.IP, Port: dstAddr.Port}
+		shown := map[int][3]string{} // serial -> String(), Tag(), Network() at arrival
 		var got [][]byte
 		var gotChunks []vnet.Chunk
 		sink := vnet.VerifNewSink(func(ch vnet.Chunk) {
@@ -99,12 +108,23 @@ func TestC16Loss(t *testing.T) {
 		}
 		for i, sz := range sizes {
 			ch := vnet.VerifNewChunkUDP(srcAddr, dstAddr, tagged(i+1, sz))
+			if tcp {
+				ch = vnet.VerifNewChunkTCP(tcpSrc, tcpDst, uint8(1+(i*7)%31), tagged(i+1, sz))
+			}
+			if !stat {
+				shown[i+1] = [3]string{ch.String(), ch.Tag(), ch.Network()}
+			}
 			ev.NoPanic(t, "LossFilter.onInboundChunk", func() { vnet.VerifInbound(f, ch) })
 		}
 		if msg, at := subsequence(sizes, got); msg != "" {
 			t.Fatalf("C16: chance %d: %s (output position %d)", chance, msg, at)
 		}
 		for _, ch := range gotChunks {
+			if want, ok := shown[int(binary.BigEndian.Uint32(ch.UserData()))]; ok {
+				if now := [3]string{ch.String(), ch.Tag(), ch.Network()}; now != want {
+					t.Fatalf("C16: chance %d: a forwarded chunk shows %q (tag %q, network %s), it arrived as %q (tag %q, network %s)", chance, now[0], now[1], now[2], want[0], want[1], want[2])
+				}
+			}
 			if ch.SourceAddr().String() != srcAddr.String() || ch.DestinationAddr().String() != dstAddr.String() {
 				t.Fatalf("C16: forwarded chunk has addresses %s -> %s, arrived with %s -> %s", ch.SourceAddr(), ch.DestinationAddr(), srcAddr, dstAddr)
 			}
